@@ -674,6 +674,10 @@ func (f *fam) scoping() {
 	// second iteration sees the value of the first one's let
 	f.add(F, "let-in-if-in-loop-iteration-carries-over", one(cmds(core.CForeach("foreach", "v", core.EList(i1, i2, core.EInt(3)),
 		cmds(core.CIf(cmds(core.CBr(core.EFn("isFirst", core.EVar("v")), cmds(core.CLetV("x", core.EStr("FIRST")), pr(vX)))), noElse), txt("["), pr(vX), txt("]")), noElse)), dm("x", core.VStr("PARAM")), "false"))
+	// {ifempty} is outside the loop: the loop variable's name means the outer binding there
+	f.add(F, "ifempty-uses-outer-binding-of-loop-var-name", one(cmds(core.CForeach("foreach", "x", core.EList(), cmds(pr(vX)), core.Opt(true, cmds(txt("empty:"), pr(vX))))), dm("x", core.VStr("PARAM")), "false"))
+	f.add(F, "ifempty-uses-helper-of-outer-loop-of-same-name", one(cmds(core.CForeach("foreach", "v", core.EList(core.EStr("a"), core.EStr("b")),
+		cmds(core.CForeach("foreach", "v", core.EList(), cmds(pr(core.EVar("v"))), core.Opt(true, cmds(pr(core.EVar("v")), pr(core.EFn("index", core.EVar("v"))), txt(";"))))), noElse)), nil, "false"))
 	// a let that reads the name it rebinds
 	f.add(F, "let-value-reads-param-of-same-name", one(cmds(core.CIf(cmds(core.CBr(core.EBool(true), cmds(core.CLetV("x", core.EBin("add", vX, core.EStr("+"))), pr(vX)))), noElse)), dm("x", core.VStr("PARAM")), "false"))
 	f.add(F, "let-value-reads-outer-let-of-same-name", one(cmds(core.CLetV("y", core.EInt(1)), core.CIf(cmds(core.CBr(core.EBool(true), cmds(core.CLetV("y", core.EBin("add", core.EVar("y"), i1)), pr(core.EVar("y"))))), noElse), pr(core.EVar("y"))), nil, "false"))
